@@ -363,6 +363,12 @@ func (e *kvElection) becomeLeader(token string, rev uint64) {
 	e.mu.Lock()
 	defer e.mu.Unlock()
 
+	if e.stoppedLocked() {
+		// Stop won the race with an acquisition that was still in flight:
+		// do not claim leadership; the record expires with its TTL.
+		return
+	}
+
 	fromState := StateInit
 	if s := e.state.Load(); s != nil {
 		if str, ok := s.(string); ok {
@@ -431,6 +437,12 @@ func (e *kvElection) becomeLeader(token string, rev uint64) {
 	}
 }
 
+// stoppedLocked reports whether the election has been stopped (or was never started).
+// The caller must hold e.mu.
+func (e *kvElection) stoppedLocked() bool {
+	return e.ctx == nil || e.ctx.Err() != nil
+}
+
 func (e *kvElection) attemptPriorityTakeover(payloadBytes []byte) error {
 	entry, err := e.kv.Get(e.key)
 	if err != nil {
@@ -483,6 +495,11 @@ func (e *kvElection) attemptPriorityTakeover(payloadBytes []byte) error {
 func (e *kvElection) becomeFollower() {
 	e.mu.Lock()
 	defer e.mu.Unlock()
+
+	if e.stoppedLocked() {
+		// a stopped election stays STOPPED and starts no new watcher
+		return
+	}
 
 	fromState := StateInit
 	if s := e.state.Load(); s != nil {
